@@ -289,7 +289,7 @@ def _enc_bits_dendro(d):
     return ';'.join('%d,%d,%s,%d' % (int(r[0]), int(r[1]), 'inf' if math.isinf(r[2]) else _bits(r[2]), int(r[3])) for r in d)
 
 
-def cases_paris(a, weights, reorder, force_bipartite=False, gname='', container=None, refit=None, ctx=None):
+def cases_paris(a, weights, reorder, force_bipartite=False, gname='', container=None, refit=None, ctx=None, via=None):
     """`container`: hand the same graph over as another dtype / a dense array / a non-canonical CSR matrix.
     `refit`: a matrix fitted first on the same estimator object (the attributes of the second fit are checked)."""
     from sknetwork.hierarchy import Paris
@@ -300,10 +300,18 @@ def cases_paris(a, weights, reorder, force_bipartite=False, gname='', container=
     def f():
         if refit is not None:
             alg.fit(_gfrom(refit))
-        alg.fit(_container(a, container), force_bipartite=force_bipartite)
-        return 'ok'
+        if via is None:
+            alg.fit(_container(a, container), force_bipartite=force_bipartite)
+            return 'ok'
+        # the other entry points of BaseHierarchy: what they return must be the fitted attributes
+        got = getattr(alg, via)(_container(a, container), force_bipartite=force_bipartite)
+        same = (np.array_equal(got, alg.dendrogram_) and np.array_equal(alg.predict(), alg.dendrogram_)
+                and np.array_equal(alg.transform(), alg.dendrogram_))
+        if bip:
+            same = same and np.array_equal(alg.predict(columns=True), alg.dendrogram_col_)
+        return 'ok' if same else 'malformed-dendrogram'
     st = _call(f)
-    key = ('paris', json.dumps(_gdesc(a)), weights, reorder, force_bipartite, container, json.dumps(refit))
+    key = ('paris', json.dumps(_gdesc(a)), weights, reorder, force_bipartite, container, json.dumps(refit), via)
     sig = {'entry': 'Paris', 'weights': weights, 'reorder': reorder, 'bipartite': bip}
     desc = {'f': 'Paris', 'graph': _gdesc(a), 'weights': weights, 'reorder': reorder, 'force_bipartite': force_bipartite}
     if container:
@@ -312,6 +320,9 @@ def cases_paris(a, weights, reorder, force_bipartite=False, gname='', container=
     if refit is not None:
         sig['refit'] = True
         desc['refit'] = refit
+    if via is not None:
+        sig['via'] = via
+        desc['via'] = via
     nontriv = (a.shape[0] + (a.shape[1] if bip else 0)) >= 3 and a.nnz >= 2
     out = _out_cases('Paris', None, a, alg, st, reorder, key, sig, desc, bip, nontriv)
     if st == 'ok' and (a.data >= 0).all():
@@ -567,7 +578,7 @@ def container_cases(ctx, rng, count):
         cont = rng.choice([k for k in CONTAINERS if _container_ok(a, k)])
         ctx.count('container:' + cont)
         w, r = rng.choice(PARIS_OPTS)
-        out += cases_paris(a, w, r, fb, container=cont, ctx=ctx)
+        out += cases_paris(a, w, r, fb, container=cont, ctx=ctx, via=rng.choice([None, 'fit_predict', 'fit_transform']))
         out += cases_louvain('LouvainHierarchy', a, rng.choice(LOUVAIN_H_OPTS), fb, container=cont)
         out += cases_louvain('LouvainIteration', a, rng.choice(LOUVAIN_I_OPTS), fb, container=cont)
         if c % 3 == 0:
@@ -655,7 +666,7 @@ def cases_from_desc(desc):
         return [case_split(d, desc['shape'][0], desc['shape'][1])]
     if f == 'Paris':
         return cases_paris(_gfrom(desc['graph']), desc['weights'], desc['reorder'], desc.get('force_bipartite', False),
-                           container=desc.get('container'), refit=desc.get('refit'))
+                           container=desc.get('container'), refit=desc.get('refit'), via=desc.get('via'))
     if f in ('LouvainHierarchy', 'LouvainIteration') and 'wide_matching' in desc:
         return [c for c in wide_cases(Sub0()) if c.sig.get('entry') == f]
     if f in ('LouvainHierarchy', 'LouvainIteration'):
